@@ -12,7 +12,12 @@ import (
 // run on ./..., ./app and ./lib: what one package's output looks like (absent, stale, damaged) and whether the other
 // package is currently accepted must not influence what a successful generation leaves behind.
 
-const c18LibGo = `package lib
+// c18LibGo: the providers of lib and the set app builds from; N varies between variants of lib without changing the
+// length of anything generated from it.
+func c18LibGo(n int) string {
+	return fmt.Sprintf(`package lib
+
+import "github.com/google/wire"
 
 type Dep struct{ N int }
 
@@ -21,7 +26,10 @@ type Box struct{ D Dep }
 func NewDep() Dep { return Dep{N: 1} }
 
 func NewBox(d Dep) *Box { return &Box{D: d} }
-`
+
+var Set = wire.NewSet(wire.Value(Dep{N: %d}), NewBox)
+`, n)
+}
 
 const c18AppGo = `package app
 
@@ -45,6 +53,7 @@ type c18mVariant struct {
 	name     string
 	accepted bool
 	wire     string
+	n        int // lib: the value in lib.Set
 }
 
 type c18mMeta struct{ app, lib string }
@@ -52,14 +61,15 @@ type c18mMeta struct{ app, lib string }
 func c18Multi(c *h.Check, thorough bool) (states, transitions, invocations int, closed bool, replayed bool) {
 	libImp := "\t\"example.com/m/lib\"\n"
 	appVars := []c18mVariant{
-		{"A1", true, c18MultiWire("app", libImp, "func InitSvc() *Svc {\n\tpanic(wire.Build(lib.NewDep, lib.NewBox, NewSvc))\n}\n")},
-		{"R1", false, c18MultiWire("app", libImp, "func InitSvc() *Svc {\n\tpanic(wire.Build(lib.NewBox, NewSvc))\n}\n")},
-		{"A2", true, c18MultiWire("app", libImp, "func InitSvc() (*Svc, error) {\n\tpanic(wire.Build(lib.NewDep, lib.NewBox, NewSvcE))\n}\n")},
+		{"A1", true, c18MultiWire("app", libImp, "func InitSvc() *Svc {\n\tpanic(wire.Build(lib.Set, NewSvc))\n}\n"), 0},
+		{"R1", false, c18MultiWire("app", libImp, "func InitSvc() *Svc {\n\tpanic(wire.Build(lib.NewBox, NewSvc))\n}\n"), 0},
+		{"A2", true, c18MultiWire("app", libImp, "func InitSvc() (*Svc, error) {\n\tpanic(wire.Build(lib.NewDep, lib.NewBox, NewSvcE))\n}\n"), 0},
 	}
 	libVars := []c18mVariant{
-		{"L1", true, c18MultiWire("lib", "", "func InitBox() *Box {\n\tpanic(wire.Build(NewDep, NewBox))\n}\n")},
-		{"L2", true, c18MultiWire("lib", "", "func InitBox() *Box {\n\tpanic(wire.Build(wire.Value(Dep{N: 7}), NewBox))\n}\n")},
-		{"LR", false, c18MultiWire("lib", "", "func InitBox() *Box {\n\tpanic(wire.Build(NewBox))\n}\n")},
+		// L1 and L2 differ in a provider set of lib.go (one digit): both lib's and app's outputs change, not their lengths
+		{"L1", true, c18MultiWire("lib", "", "func InitBox() *Box {\n\tpanic(wire.Build(Set))\n}\n"), 7},
+		{"L2", true, c18MultiWire("lib", "", "func InitBox() *Box {\n\tpanic(wire.Build(Set))\n}\n"), 8},
+		{"LR", false, c18MultiWire("lib", "", "func InitBox() *Box {\n\tpanic(wire.Build(NewBox))\n}\n"), 7},
 	}
 	if !thorough {
 		appVars = appVars[:2]
@@ -72,7 +82,7 @@ func c18Multi(c *h.Check, thorough bool) (states, transitions, invocations int, 
 		byName[v.name] = v
 	}
 	tree := func(a, l c18mVariant) h.Tree {
-		return h.Tree{"app/foo.go": c18AppGo, "app/wire.go": a.wire, "lib/lib.go": c18LibGo, "lib/wire.go": l.wire}
+		return h.Tree{"app/foo.go": c18AppGo, "app/wire.go": a.wire, "lib/lib.go": c18LibGo(l.n), "lib/wire.go": l.wire}
 	}
 	ex := &h.FSExplorer{S: c.S, ModPath: "example.com/m"}
 	// Fresh outputs from pristine checkouts: per package and own variant; generated against every variant of the
@@ -94,10 +104,14 @@ func c18Multi(c *h.Check, thorough bool) (states, transitions, invocations int, 
 				if !v.accepted {
 					continue
 				}
-				if prev, ok := fresh[v.name]; ok && prev != got {
-					c.AddViolation(h.Violation{CaseID: "init2:" + a.name + "+" + l.name + " ; gen-" + pkg, Symptom: "not-fresh", Detail: fmt.Sprintf("the fresh output of %s (variant %s) depends on the variant of the other package", pkg, v.name)}, nil, nil)
+				if pkg == "app" {
+					fresh[a.name+"+"+l.name] = got
+				} else {
+					if prev, ok := fresh[v.name]; ok && prev != got {
+						c.AddViolation(h.Violation{CaseID: "init2:" + a.name + "+" + l.name + " ; gen-" + pkg, Symptom: "not-fresh", Detail: fmt.Sprintf("the fresh output of %s (variant %s) depends on the variant of the package that imports it", pkg, v.name)}, nil, nil)
+					}
+					fresh[v.name] = got
 				}
-				fresh[v.name] = got
 			}
 		}
 	}
@@ -130,7 +144,11 @@ func c18Multi(c *h.Check, thorough bool) (states, transitions, invocations int, 
 		for _, v := range libVars {
 			v := v
 			if v.name != m.lib {
-				ops = append(ops, h.FSOp{Name: "switch-lib:" + v.name, Edit: func(t h.Tree) (h.Tree, bool) { t["lib/wire.go"] = v.wire; return t, true }})
+				ops = append(ops, h.FSOp{Name: "switch-lib:" + v.name, Edit: func(t h.Tree) (h.Tree, bool) {
+					t["lib/wire.go"] = v.wire
+					t["lib/lib.go"] = c18LibGo(v.n)
+					return t, true
+				}})
 			}
 		}
 		ops = append(ops,
@@ -177,6 +195,12 @@ func c18Multi(c *h.Check, thorough bool) (states, transitions, invocations int, 
 			bad("crash", "wire crashed or hung:\n%s", clip(o.Stderr, 1200))
 			return vs
 		}
+		freshOf := func(pkg string) string {
+			if pkg == "app" {
+				return fresh[m.app+"+"+m.lib]
+			}
+			return fresh[m.lib]
+		}
 		d := s.Tree.Diff(after)
 		allAccepted := cur["app"].accepted && cur["lib"].accepted
 		switch {
@@ -195,7 +219,7 @@ func c18Multi(c *h.Check, thorough bool) (states, transitions, invocations int, 
 			inTargets := map[string]bool{}
 			for _, pkg := range targets {
 				inTargets[outOf[pkg]] = true
-				if cur[pkg].accepted && o.Exit == 0 && after[outOf[pkg]] != fresh[cur[pkg].name] {
+				if cur[pkg].accepted && o.Exit == 0 && after[outOf[pkg]] != freshOf(pkg) {
 					bad("not-fresh", "after a successful gen %s differs from what a fresh checkout gets", outOf[pkg])
 				}
 				if !cur[pkg].accepted && after[outOf[pkg]] != s.Tree[outOf[pkg]] {
@@ -206,7 +230,7 @@ func c18Multi(c *h.Check, thorough bool) (states, transitions, invocations int, 
 				p := x[strings.Index(x, ":")+1:]
 				if !inTargets[p] {
 					bad("footprint", "gen changed %s", x)
-				} else if after[p] != fresh[cur[strings.SplitN(p, "/", 2)[0]].name] {
+				} else if after[p] != freshOf(strings.SplitN(p, "/", 2)[0]) {
 					bad("not-fresh", "gen rewrote %s with something a fresh checkout would not get", p)
 				}
 			}
@@ -237,7 +261,7 @@ func c18Multi(c *h.Check, thorough bool) (states, transitions, invocations int, 
 				want := 0
 				if !allAccepted {
 					want = 2
-				} else if s.Tree[appOut] != fresh[m.app] || s.Tree[libOut] != fresh[m.lib] {
+				} else if s.Tree[appOut] != freshOf("app") || s.Tree[libOut] != freshOf("lib") {
 					want = 1
 				}
 				if o.Exit != want {
